@@ -12,6 +12,7 @@ class MemoryStorage(object):
         # Properties
         self.block_size = block_size
         self.array = bytearray()
+        self.cursor = 0
 
     def __len__(self):
         return len(self.array)
@@ -23,9 +24,16 @@ class MemoryStorage(object):
     # Method clearing the memory
     def clear(self):
         self.array = bytearray()
+        self.cursor = 0
 
     # Method reading a block in the bytearray
-    def read(self, block):
+    # NOTE: like a file, reading without a block continues after the last read
+    def read(self, block=None):
+        if block is None:
+            block = self.cursor
+
+        self.cursor = block + self.block_size
+
         try:
             return self.array[block : block + self.block_size] or None
         except IndexError:
